@@ -1,46 +1,6 @@
 From Coq Require Import List Ascii String Bool Arith ZArith Lia Permutation Sorted.
-From TC Require Import PyStr Value Cached StrProofs SortProofs ValueProofs.
+From TC Require Import PyStr Value Dict Cached StrProofs SortProofs ValueProofs DictProofs.
 Import ListNotations.
-
-(* ---------- dictionaries as association lists ---------- *)
-Lemma dget_dset_same k v d : dget k (dset k v d) = Some v.
-Proof.
-  induction d as [|[k' v'] r IH]; simpl; [now rewrite str_eqb_refl|].
-  destruct (str_eqb k k') eqn:E; simpl; [now rewrite str_eqb_refl|]. now rewrite E.
-Qed.
-
-Lemma dget_dset_other k k' v d : k <> k' -> dget k (dset k' v d) = dget k d.
-Proof.
-  intros Hne. induction d as [|[k2 v2] r IH]; simpl.
-  - apply str_eqb_neq in Hne. now rewrite Hne.
-  - destruct (str_eqb k' k2) eqn:E; simpl.
-    + apply str_eqb_eq in E. subst. apply str_eqb_neq in Hne. now rewrite Hne.
-    + destruct (str_eqb k k2); auto.
-Qed.
-
-Lemma dset_keys k v d : In k (map fst d) -> map fst (dset k v d) = map fst d.
-Proof.
-  induction d as [|[k' v'] r IH]; simpl; [contradiction|].
-  destruct (str_eqb k k') eqn:E; simpl.
-  - apply str_eqb_eq in E. now subst.
-  - intros [H|H]; [apply str_eqb_neq in E; congruence|]. f_equal. now apply IH.
-Qed.
-
-Lemma dset_keys_new k v d : ~ In k (map fst d) -> map fst (dset k v d) = map fst d ++ [k].
-Proof.
-  induction d as [|[k' v'] r IH]; simpl; intros H; [reflexivity|].
-  destruct (str_eqb k k') eqn:E.
-  - apply str_eqb_eq in E. subst. exfalso. apply H. now left.
-  - simpl. f_equal. apply IH. intro. apply H. now right.
-Qed.
-
-Lemma dset_nodup k v d : NoDup (map fst d) -> NoDup (map fst (dset k v d)).
-Proof.
-  intros H. destruct (in_dec str_eq_dec k (map fst d)) as [Hi|Hn].
-  - now rewrite dset_keys.
-  - rewrite dset_keys_new by assumption.
-    eapply Permutation_NoDup; [apply Permutation_cons_append|]. now constructor.
-Qed.
 
 (* ---------- binding ---------- *)
 (* what Python binds to parameter number i: a positional argument, else the keyword, else the default *)
@@ -50,7 +10,7 @@ Definition py_value (args : list value) (kwargs : list (str * value)) (i : nat) 
   | None => match dget (p_name p) kwargs with Some v => Some v | None => p_default p end
   end.
 
-Lemma dhas_dget k d : dhas k d = match dget k d with Some _ => true | None => false end.
+Lemma dhas_dget k (d : list (str * value)) : dhas k d = match dget k d with Some _ => true | None => false end.
 Proof. reflexivity. Qed.
 
 Lemma bind_go_other sig i args kw k :
@@ -111,7 +71,7 @@ Proof. apply str_leb_total. Qed.
 Lemma key_leb_trans a b c : key_leb a b = true -> key_leb b c = true -> key_leb a c = true.
 Proof. apply str_leb_trans. Qed.
 
-Lemma in_dget k v d : NoDup (map fst d) -> (In (k, v) d <-> dget k d = Some v).
+Lemma in_dget k v (d : list (str * value)) : NoDup (map fst d) -> (In (k, v) d <-> dget k d = Some v).
 Proof.
   induction d as [|[k' v'] r IH]; simpl; intros Hnd; [split; [contradiction|discriminate]|].
   inversion Hnd as [|? ? Hk Hr]; subst. destruct (str_eqb k k') eqn:E.
